@@ -24,6 +24,10 @@ mod performance;
 mod score_state;
 mod strains;
 
+#[cfg(rosu_pp_verif)]
+#[doc(hidden)]
+pub mod verif;
+
 /// Marker type for [`GameMode::Mania`].
 ///
 /// [`GameMode::Mania`]: rosu_map::section::general::GameMode::Mania
